@@ -28,7 +28,13 @@ pub struct IdenSpec {
 }
 
 pub fn gen_iden(r: &mut Rng) -> IdenSpec {
-    let k = if r.pct(80) { r.below(12) } else { r.below(NAMES.len()) };
+    let k = if r.name_pool > 0 && r.pct(85) {
+        r.below(r.name_pool as usize)
+    } else if r.pct(80) {
+        r.below(12)
+    } else {
+        r.below(NAMES.len())
+    };
     IdenSpec {
         n: NAMES[k].to_string(),
         slot: if r.pct(40) { Some(k as u8) } else { None },
